@@ -14,3 +14,16 @@ B('C18', 'extra-early-fullness-test', POOLF,
             return Ok(());
         }
         let mut resources = self""", 'an extra early-out outside the region; the in-region test remains')
+
+DTK = 'mithril-client/src/cardano_database_client/download_unpack/download_task.rs'
+B('C19', 'verification-failure-swallowed-nothing-moved', DTK,
+  """        let validated_manifest = ancillary_verifier.verify(ancillary_files_temp_dir).await?;
+        validated_manifest.move_to_final_location(target_dir).await""",
+  """        let validated_manifest = ancillary_verifier.verify(ancillary_files_temp_dir).await;
+        match validated_manifest {
+            Ok(manifest) => manifest.move_to_final_location(target_dir).await,
+            Err(e) => {
+                slog::warn!(logger, "ancillary verification failed"; "error" => ?e);
+                Ok(())
+            }
+        }""", 'a failed verification is turned into Ok(()) but nothing is moved and the temp dir is removed: the restored directory still holds only verified files')
